@@ -16,12 +16,13 @@ TITLE = "Job id is the canonical, order-independent hash of the state point valu
 LEAN_MODULE = "Signac.Properties.C01"
 DRIVER = "drv_c01"
 DESIGN_REF = "DESIGN.md §4 C01"
-RULE = ("bounded-exhaustive mappings over the 12-scalar alphabet (1-2 entries, lists/sub-mappings of "
+RULE = ("(+ `signac job <text>` with four spellings of the JSON text; in-place type-only changes of one entry; nested synced "
+        "collections as values) " + ("bounded-exhaustive mappings over the 12-scalar alphabet (1-2 entries, lists/sub-mappings of "
         "1-2 scalars) + seeded random deep values (depth<=6, ints to 2^53, random finite floats, strings "
         "with control/quote/backslash/BMP/astral characters) + golden ids; each value is hashed through "
         "calc_id for dict, permuted-dict, tuple, JSON round-trip and state-point-collection spellings, "
         "through open_job().id and (sampled) through init() + fresh Project; distinct = distinct canonical "
-        "text; non-trivial = mapping with >=1 entry")
+        "text; non-trivial = mapping with >=1 entry"))
 MODELLED = ["CPython json.dumps float repr (opaque token supplied by the harness)",
             "hashlib.md5 (re-implemented in Lean, compared on every case)",
             "MD5 collision-freeness (needed for 'different values get different ids'; checked pairwise only)"]
